@@ -438,7 +438,7 @@ def parse_lens(s):
     return [tuple(int(x) for x in p.split(":")) for p in s.split(",")]
 
 
-def mutants(data, lens, rng, small_limit=160, all_bytes=True, max_trunc=None, few=False):
+def mutants(data, lens, rng, small_limit=160, all_bytes=True, max_trunc=None, few=False, inner=True, few_bytes=False):
     """yield (kind, bytes) - truncations, length-field perturbations, junk inside each
     length-delimited region (with the enclosing lengths adjusted), junk after the structure,
     single byte changes"""
@@ -480,7 +480,7 @@ def mutants(data, lens, rng, small_limit=160, all_bytes=True, max_trunc=None, fe
             if 0 <= nv <= top(w) and nv != val:
                 res += out("length", data[:off] + nv.to_bytes(w, "big") + data[off + w:])
     # junk inside a region, enclosing lengths made consistent
-    for off, w, val in fields:
+    for off, w, val in (fields if inner else []):
         end = off + w + val
         for junk in ((b"\x00",) if few else (b"\x00", b"\xff\x01")):
             b = bytearray(data[:end] + junk + data[end:])
@@ -501,7 +501,7 @@ def mutants(data, lens, rng, small_limit=160, all_bytes=True, max_trunc=None, fe
     # single byte changes
     if all_bytes and n <= small_limit:
         for i in range(n):
-            for nv in ((data[i] + 1) & 0xff, (data[i] - 1) & 0xff, 0, 0xff):
+            for nv in (((data[i] + 1) & 0xff, 0, 0xff) if few_bytes else ((data[i] + 1) & 0xff, (data[i] - 1) & 0xff, 0, 0xff)):
                 if nv != data[i]:
                     res += out("byte", data[:i] + bytes([nv]) + data[i + 1:])
     return res
